@@ -37,13 +37,14 @@ def main():
         except vlib.Broken as b:
             ok = False
             print("setup: translator failed for", P.pid, b.what, b.detail[-2000:])
-    vlib.coq_project()
-    targets = sorted({t for P in props for t in P.coq_targets})
-    rc, out = vlib.run(["make", "-j%d" % vlib.NPROC] + targets, cwd=vlib.COQ, timeout=3 * 3600)
-    print("\n".join(l for l in out.split("\n") if not l.startswith("Closed under") and l.strip())[-6000:])
-    if rc != 0:
-        ok = False
-        print("setup: coq build failed")
+    for P in props:
+        ctx = vlib.Ctx(P.pid, "quick", 1)
+        try:
+            vlib.coq_make(ctx, list(P.coq_targets), timeout=3 * 3600)
+            ctx.log("coq closure built")
+        except vlib.Broken as b:
+            ok = False
+            print("setup: coq build failed for", P.pid, b.what, b.detail[-3000:])
     # warm the go build cache (compile the harness packages, run nothing)
     for P in props:
         ctx = vlib.Ctx(P.pid, "quick", 1)
